@@ -118,6 +118,8 @@ type Violation struct {
 	Monitor   string      `json:"monitor"`
 	Message   string      `json:"message"`
 	Replay    interface{} `json:"replay"`
+	// Rank orders violations with the same signature: the smallest one is kept (BFS depth first).
+	Rank int64 `json:"-"`
 }
 
 type Run struct {
@@ -135,6 +137,33 @@ type Run struct {
 	counters    map[string]int64
 	exhaustive  bool
 	notes       []string
+	knownOnce   sync.Once
+	known       map[string]bool
+}
+
+// IsKnown reports whether a signature is listed as a known finding of this property.
+func (r *Run) IsKnown(sig string) bool {
+	r.knownOnce.Do(func() {
+		r.known = map[string]bool{}
+		for _, f := range loadKnown() {
+			if f.Property == r.Property {
+				r.known[f.Signature] = true
+			}
+		}
+	})
+	return r.known[sig]
+}
+
+// HasUnknownViolation reports whether a violation outside the known findings was recorded.
+func (r *Run) HasUnknownViolation() bool {
+	r.mu.Lock()
+	defer r.mu.Unlock()
+	for s := range r.violations {
+		if !r.IsKnown(s) {
+			return true
+		}
+	}
+	return false
 }
 
 func NewRun(property, level string) *Run {
@@ -148,7 +177,7 @@ func (r *Run) Violate(v Violation) {
 	r.mu.Lock()
 	defer r.mu.Unlock()
 	r.vioCount[v.Signature]++
-	if _, ok := r.violations[v.Signature]; !ok {
+	if old, ok := r.violations[v.Signature]; !ok || v.Rank < old.Rank {
 		vv := v
 		r.violations[v.Signature] = &vv
 	}
